@@ -48,7 +48,7 @@ def check(ctx: Ctx) -> None:
                f"{s.caller.name}: the call of evaluate_ahb_expression_tree is " + ("in a handler that re-raises" if covered else "not covered by 'except InvalidExpressionError'") +
                ": an invalid expression would abort the whole validation", file=FILE, line=s.line, function=s.caller.qualname)
         ctx.sample({"guarded_call_site": s.caller.name, "line": s.line})
-    valsweep.report(ctx, ("C16.abort", "C16.kann"))
+    ctx.soft(lambda: valsweep.report(ctx, ("C16.abort", "C16.kann")))
     # the only exception an invalid composition raises is the one the handlers catch
     from ..rcsweep import INVALID, RCT, callback_table
 
@@ -60,7 +60,7 @@ def check(ctx: Ctx) -> None:
                 ok = out[1] in (INVALID, "builtins.NotImplementedError")
                 ctx.ob("C16.exception", f"{cb}:{lt},{rt}", ok, f"{cb}({lt}, {rt}) raises {out[1]}: the validation handlers only catch InvalidExpressionError",
                        file="src/ahbicht/expressions/requirement_constraint_expression_evaluation.py", function=cb)
-    ahbsweep.report(ctx, ("C06.noshort",), "src/ahbicht/expressions/ahb_expression_evaluation.py")
+    ctx.soft(lambda: ahbsweep.report(ctx, ("C06.noshort",), "src/ahbicht/expressions/ahb_expression_evaluation.py"))
 
 
 def _contains(root: ast.AST, target: ast.AST) -> bool:
